@@ -120,7 +120,8 @@ func TestVerif_C22(t *testing.T) {
 		"work/space writes, with every mutating storage call recorded. At the selected call boundaries (quick: an even sample of every call type plus every boundary of the last step; " +
 		"thorough: every boundary) the on-disk Badger directory is copied as it is at that instant (what a process kill leaves) and a fresh replica is started on the copy: " +
 		"SetupNode must succeed, the graph validator must report 0 invalid entries, a scan must find body/outputs/finalization for every finalized transaction and unique " +
-		"topology positions, and re-feeding the in-flight snapshot must not crash. non-trivial = distinct (call type, boundary index) cuts that were restarted")
+		"topology positions, and re-feeding the in-flight snapshot must not crash. A second phase finalizes a node pledge, the acceptance of the new node (round zero and one of a new chain) " +
+		"and a node removal with EVERY boundary cut. non-trivial = distinct (call type, boundary index) cuts that were restarted")
 	r.Assume("the copy of the open Badger directory at a quiescent point (single driver goroutine, call boundary) equals what a process kill would leave; torn writes inside one Badger commit are Badger's contract")
 	rng := r.Rand()
 	label := fmt.Sprintf("c22-%d", r.Seed)
@@ -155,12 +156,18 @@ func TestVerif_C22(t *testing.T) {
 			t.Fatalf("copy: %v", err)
 		}
 		defer os.RemoveAll(run)
-		f2, err := verifFeedOn(t, f.net, r.Fork("c22-restart", idx), run, nil)
+		var f2 *verifFeed
+		var err error
 		kind := "idle"
 		if current != nil {
 			kind = current.kind
 		}
 		where := fmt.Sprintf("before:%s|during:%s", method, kind)
+		if panicked, pv, stack := verifkit.Guard(func() { f2, err = verifFeedOn(t, f.net, r.Fork("c22-restart", idx), run, nil) }); panicked {
+			r.Violation("C22|restart-panics|"+verifkit.PanicSite(stack)+"|"+where, fmt.Sprintf("node setup panics after a stop %s: %v", where, pv),
+				map[string]any{"boundary": idx, "method": method, "step": kind, "panic": fmt.Sprint(pv), "calls_tail": vC22Tail(px.calls, 12)})
+			return
+		}
 		if err != nil {
 			r.Violation("C22|restart-failed|"+where, fmt.Sprintf("node does not restart after a stop %s: %v", where, err),
 				map[string]any{"boundary": idx, "method": method, "step": kind, "error": err.Error(), "calls_tail": vC22Tail(px.calls, 12)})
@@ -223,7 +230,7 @@ func TestVerif_C22(t *testing.T) {
 		}
 	}
 
-	px.onCall = func(idx int, method string, before bool) {
+	onCall := func(idx int, method string, before bool) {
 		if !before {
 			return
 		}
@@ -255,6 +262,7 @@ func TestVerif_C22(t *testing.T) {
 		}
 	}
 
+	px.onCall = onCall
 	for i := 0; i < steps; i++ {
 		if i >= steps-1 {
 			tail = true
@@ -385,6 +393,71 @@ func TestVerif_C22(t *testing.T) {
 			_ = f.node.persistStore.WriteRoundSpaceAndState(&common.RoundSpace{NodeId: st.chain, Batch: 0, Round: off})
 		}
 		current = nil
+	}
+	// Phase 2: membership operations (pledge of a new node, its acceptance = round zero and round one of a
+	// brand-new chain, then a node removal); every boundary of their finalization is cut.
+	tail = true
+	consensusStep := func(kind string, s *common.Snapshot, txs []*common.VersionedTransaction) bool {
+		current = &vC22Step{kind: "finalization:" + kind}
+		inflight, inflightTxs = s, txs
+		defer func() { inflight, inflightTxs, current = nil, nil, nil }()
+		cp := *s
+		d := f.deliver(&cp, txs)
+		if !d.Finalized && !d.Panicked && d.Err == nil && kind != "node-accept" {
+			cp2 := *s
+			d = f.deliver(&cp2, txs)
+		}
+		if d.Panicked || d.Err != nil {
+			t.Fatalf("live run failed at %s: %v %v", kind, d.Err, d.PanicVal)
+		}
+		if st, _ := f.node.persistStore.ReadSnapshot(s.Hash); st == nil {
+			r.Count("consensus_snapshots_not_finalized_live_"+kind, 1)
+			return false
+		}
+		r.Count("consensus_snapshots_finalized_live_"+kind, 1)
+		for _, tx := range txs {
+			firstFinal[tx.PayloadHash()] = s.Hash
+		}
+		return true
+	}
+	prepared := func(chainId crypto.Hash, tx *common.VersionedTransaction, ts uint64) *common.Snapshot {
+		s, err := f.nextSnapshot(chainId, []crypto.Hash{tx.PayloadHash()}, ts)
+		if err != nil {
+			r.Count("consensus_snapshot_build_skipped", 1)
+			return nil
+		}
+		if _, err := f.sign(s, rng.Intn(2)); err != nil {
+			r.Count("sign_errors", 1)
+			return nil
+		}
+		return s
+	}
+	px.onCall, tail = nil, false
+	eid, ptx, pts, cand, err := f.buildPledge(w) // includes an ordinary funding deposit (not cut)
+	px.onCall = onCall
+	tail = true
+	if err != nil {
+		r.Count("pledge_not_buildable", 1)
+		t.Logf("pledge not buildable: %v", err)
+	} else if s := prepared(eid, ptx, pts); s != nil && consensusStep("node-pledge", s, []*common.VersionedTransaction{ptx}) {
+		as, atx, err := f.buildAccept(cand)
+		if err == nil {
+			_, err = f.sign(as, rng.Intn(2))
+		}
+		if err != nil {
+			r.Count("accept_not_buildable", 1)
+			t.Logf("accept not buildable: %v", err)
+		} else {
+			consensusStep("node-accept", as, []*common.VersionedTransaction{atx})
+		}
+	}
+	f.cursor += uint64(13 * time.Hour)
+	rts := f.atHour(13+rng.Intn(6), 50*time.Minute)
+	if rid, rtx, err := f.buildNodeRemove(rts); err != nil {
+		r.Count("remove_not_buildable", 1)
+		t.Logf("remove not buildable: %v", err)
+	} else if s := prepared(rid, rtx, rts); s != nil {
+		consensusStep("node-remove", s, []*common.VersionedTransaction{rtx})
 	}
 	px.onCall = nil
 	types := map[string]int{}
